@@ -27,20 +27,39 @@ def perform_dropdown_condition_renames(useractions, renames):
   Given a dict of column renames of the form {(table_id, col_id): new_col_id}, applies updates
   to the affected dropdown condition formulas.
   """
+  docmodel = useractions.get_docmodel()
+  # Dropdown conditions are kept in the widgetOptions of columns, and of the view fields that
+  # override the options of their column.
+  col_updates = _get_renamed_widget_options(docmodel.columns.all, lambda col: col, renames)
+  field_updates = _get_renamed_widget_options(docmodel.view_fields.all,
+                                              lambda field: field.colRef, renames)
+
+  # Update the dropdown conditions in the database.
+  useractions.doBulkUpdateFromPairs('_grist_Tables_column', col_updates)
+  useractions.doBulkUpdateFromPairs('_grist_Views_section_field', field_updates)
+
+
+def _get_renamed_widget_options(records, get_col, renames):
+  """
+  Returns a list of (record, {"widgetOptions": new_value}) pairs for those of the given records
+  (columns or view fields) whose dropdown condition is affected by renames; get_col(record) is
+  the column record that the options apply to.
+  """
   updates = []
 
-  for col in useractions.get_docmodel().columns.all:
-    if not col.widgetOptions:
+  for rec in records:
+    if not rec.widgetOptions:
       continue
 
-    # Find all columns in the document that have dropdown conditions.
+    # Find all records that have dropdown conditions.
     try:
-      widget_options = json.loads(col.widgetOptions)
+      widget_options = json.loads(rec.widgetOptions)
       dc_formula = widget_options["dropdownCondition"]["text"]
     except (ValueError, KeyError):
       continue
 
     # Find out what table this column refers to and belongs to.
+    col = get_col(rec)
     ref_table_id = usertypes.get_referenced_table_id(col.type)
     self_table_id = col.parentId.tableId
 
@@ -68,10 +87,9 @@ def perform_dropdown_condition_renames(useractions, renames):
     if new_dc_formula != dc_formula:
       widget_options["dropdownCondition"]["text"] = new_dc_formula
       widget_options["dropdownCondition"]["parsed"] = parse_predicate_formula_json(new_dc_formula)
-      updates.append((col, {"widgetOptions": json.dumps(widget_options)}))
+      updates.append((rec, {"widgetOptions": json.dumps(widget_options)}))
 
-  # Update the dropdown condition in the database.
-  useractions.doBulkUpdateFromPairs('_grist_Tables_column', updates)
+  return updates
 
 
 def parse_dropdown_conditions(col_values):
